@@ -165,6 +165,13 @@ fn known(store: &Store) -> Result<Vec<String>, String> {
 
 /// One datagram against one store kind through every pipeline, then benign traffic.
 pub fn check_datagram(d: &[u8], store_kind: u8, benign_first: bool) -> Vec<Finding> {
+    crate::engine::watch_begin(d);
+    let r = check_datagram_inner(d, store_kind, benign_first);
+    crate::engine::watch_end();
+    r
+}
+
+fn check_datagram_inner(d: &[u8], store_kind: u8, benign_first: bool) -> Vec<Finding> {
     let mk = || json!({"kind": "datagram", "datagram": hex(d), "store": store_kind, "benign_first": benign_first});
     let mut out: Vec<Finding> = Vec::new();
     let mut report = |stage: &str, tag: String, det: String| out.push(finding(format!("C14|{}|{}", stage, tag), det, mk()));
@@ -374,6 +381,17 @@ pub fn hostile_datagrams() -> Vec<(String, Vec<u8>)> {
         many.answers.push(RefRR { name: RefName(vec![B(format!("i{}", i).into_bytes()), B(b"_mysrv".to_vec()), B(b"_tcp".to_vec()), B(b"local".to_vec())]), class: 1, cache_flush: false, ttl: 1, rdata: typed(1, vec![Val::U32(i)]) });
     }
     out.push(("400-instances-response".into(), many.encode_compressed(0, false)));
+    // many questions in one datagram: the reply grows with the number of questions
+    for (n, qname, qtype) in [(50usize, "me._mysrv._tcp.local", 255u16), (200, "me._mysrv._tcp.local", 255), (600, "me._mysrv._tcp.local", 33), (200, SERVICE, 255), (400, "peer._mysrv._tcp.local", 255)] {
+        let mut q = RefPacket { id: 0, ..Default::default() };
+        for i in 0..n {
+            q.questions.push(RefQ { name: RefName::txt(qname), qtype, qclass: if i % 2 == 0 { 1 } else { 255 }, unicast: i % 3 == 0 });
+        }
+        let b = q.encode_compressed(0, false);
+        if b.len() <= 9000 {
+            out.push((format!("{}-questions-{}", n, qtype), b));
+        }
+    }
     out.push(("benign-query".into(), benign_query()));
     out.push(("benign-response".into(), benign_response()));
     out.push(("empty".into(), vec![]));
@@ -513,6 +531,20 @@ pub fn run(ctx: &Ctx) {
     let thorough = ctx.tier == crate::engine::Tier::Thorough;
     ctx.set_rule("datagram alphabet: every buffer of length <= L over {00,80,ff}; every cut and byte perturbation of a benign query, a benign announcement and a hostile-name response; queries and responses carrying each hostile label class (non-UTF-8, NUL, dot, backslash, 63 bytes, 255-byte name) under and outside the watched service, plain and compressed; 9000-byte datagrams; benign traffic. Each datagram x 3 store kinds (empty, as ServiceDiscovery::new builds it, plus a cached peer) x {fresh, after benign traffic} goes through the responder, sync discovery (with / without channel), async ingest and one-shot resolver pipelines composed from the real functions, under the real RwLock; afterwards the lock must be unpoisoned, get_known_services computable, a benign query answered exactly as by an untouched store, a benign announcement discovered, every reply parseable. Representatives are replayed against running services over loopback multicast. non-trivial = the datagram parses (the handlers run past the parser)");
     ctx.assume("the pipelines mirror the receive-loop bodies of simple_responder.rs / service_discovery.rs / oneshot_resolver.rs (sync and async); the loops themselves are exercised by the socket stage on a representative set");
+    {
+        // a handler that never returns wedges the receive loop just as a panic kills it
+        let root = ctx.verif_root.clone();
+        crate::engine::start_watchdog(Duration::from_secs(20), move |what, dt| {
+            let path = format!("{}/replays/C14-hang.json", root);
+            let _ = std::fs::create_dir_all(format!("{}/replays", root));
+            let body = json!({"property": "C14", "signature": "C14|handler-hangs", "detail": format!("handling a datagram did not return after {:?}: the receive loop is wedged", dt), "case": {"kind": "datagram", "datagram": hex(what), "store": 1, "benign_first": false}});
+            let _ = std::fs::write(&path, serde_json::to_string(&body).unwrap());
+            println!("VIOLATION property=C14 replay={}", path);
+            println!("  signature: C14|handler-hangs");
+            println!("  detail: handling a {}-byte datagram did not return after {:?}", what.len(), dt);
+            std::process::exit(1);
+        });
+    }
     let l = ctx.tier.pick(7usize, 10usize);
     let mut data: Vec<Vec<u8>> = Vec::new();
     let mut b = Vec::new();
